@@ -83,18 +83,44 @@ fn rg_path(dir: &Path, rg_idx: usize) -> PathBuf {
 /// (readers mmapping files another builder was still writing).
 pub fn ensure_sidecar(parquet_path: &Path) -> Option<PathBuf> {
     let dir = sidecar_dir(parquet_path);
+    #[cfg(qe_verif)]
+    crate::verif::park::point("ipc.ensure.enter");
     let src_meta = std::fs::metadata(parquet_path).ok()?;
     if is_fresh(&dir, &src_meta) {
+        #[cfg(qe_verif)]
+        crate::verif::park::point("ipc.ensure.fresh");
         return Some(dir);
     }
+    #[cfg(qe_verif)]
+    crate::verif::park::point("ipc.ensure.not_fresh");
     if mode() != Mode::Build {
         // Auto mode uses what exists but never builds (and never serves a
         // STALE sidecar — the fresh check above already declined it).
         return None;
     }
 
+    #[cfg(qe_verif)]
+    if crate::verif::park::foreign_pid().is_some() {
+        // A simulated SECOND process: it shares no in-process lock with the
+        // builders of this one; only the staging directory and the rename
+        // stand between it and them.
+        if let Err(e) = build_sidecar(parquet_path, &dir, &src_meta) {
+            eprintln!(
+                "[ipc-cache] sidecar build FAILED for {}: {e}",
+                parquet_path.display()
+            );
+            return None;
+        }
+        return Some(dir);
+    }
+    #[cfg(qe_verif)]
+    crate::verif::park::point("ipc.lock.before");
     static BUILD_LOCK: std::sync::Mutex<()> = std::sync::Mutex::new(());
+    #[cfg(qe_verif)]
+    let _verif_unlock = crate::verif::park::PointOnDrop("ipc.lock.dropped");
     let _guard = BUILD_LOCK.lock().ok()?;
+    #[cfg(qe_verif)]
+    crate::verif::park::point("ipc.lock.after");
     if is_fresh(&dir, &src_meta) {
         return Some(dir);
     }
@@ -142,8 +168,15 @@ fn is_fresh(dir: &Path, src_meta: &std::fs::Metadata) -> bool {
 
 fn build_sidecar(parquet_path: &Path, dir: &Path, src_meta: &std::fs::Metadata) -> Result<()> {
     let staging = dir.with_extension(format!("{}.building", std::process::id()));
+    #[cfg(qe_verif)]
+    let staging = match crate::verif::park::foreign_pid() {
+        Some(pid) => dir.with_extension(format!("{pid}.building")),
+        None => staging,
+    };
     let _ = std::fs::remove_dir_all(&staging);
     std::fs::create_dir_all(&staging)?;
+    #[cfg(qe_verif)]
+    crate::verif::park::point("ipc.build.staging_created");
     let build_into = staging.clone();
     let dir = build_into.as_path();
     let md = crate::storage::metadata_cache::cached_metadata(parquet_path)?;
@@ -344,8 +377,12 @@ fn build_sidecar(parquet_path: &Path, dir: &Path, src_meta: &std::fs::Metadata) 
         }
         w.finish()
             .map_err(|e| QueryError::Execution(e.to_string()))?;
+        #[cfg(qe_verif)]
+        crate::verif::park::point("ipc.build.rg_written");
         Ok(())
     })?;
+    #[cfg(qe_verif)]
+    crate::verif::park::point("ipc.build.before_complete");
     let stamp = stamp_value(src_meta)
         .ok_or_else(|| QueryError::Execution("source mtime unavailable for stamp".into()))?;
     std::fs::write(dir.join(".complete"), stamp)?;
@@ -355,10 +392,16 @@ fn build_sidecar(parquet_path: &Path, dir: &Path, src_meta: &std::fs::Metadata) 
     // if the rename still loses, defer to whatever is there — the fresh
     // check on the next call decides.
     let final_dir = sidecar_dir(parquet_path);
+    #[cfg(qe_verif)]
+    crate::verif::park::point("ipc.build.before_remove_final");
     let _ = std::fs::remove_dir_all(&final_dir);
+    #[cfg(qe_verif)]
+    crate::verif::park::point("ipc.build.final_removed");
     if std::fs::rename(&staging, &final_dir).is_err() {
         let _ = std::fs::remove_dir_all(&staging);
     }
+    #[cfg(qe_verif)]
+    crate::verif::park::point("ipc.build.published");
     Ok(())
 }
 
@@ -424,7 +467,11 @@ pub fn read_row_group(
     use arrow::ipc::reader::{read_footer_length, FileDecoder};
 
     let path = rg_path(dir, rg_idx);
+    #[cfg(qe_verif)]
+    crate::verif::park::point("ipc.read.enter");
     let file = File::open(&path)?;
+    #[cfg(qe_verif)]
+    crate::verif::park::point("ipc.read.opened");
     // SAFETY: the sidecar is created atomically by build_sidecar (readers
     // only see it after `.complete` is stamped) and never mutated in place —
     // a source-parquet change rebuilds into a fresh directory. Mapping a
